@@ -362,9 +362,16 @@ pub fn noise_sensitive(text: &str) -> bool {
         Ok(toks) => {
             // a comment inside the text: some characters were skipped that are neither
             // whitespace nor part of a token
-            let covered: usize = toks.iter().map(|t| t.end - t.start).sum();
-            let total = text.chars().filter(|c| !matches!(c, ' ' | '\t' | '\n' | '\r' | ',' | '\u{feff}')).count();
-            covered != total
+            let c: Vec<char> = text.chars().collect();
+            let mut at = 0usize;
+            for t in &toks {
+                // ignored material before this token (the last token is Eof at the end of the text)
+                if c[at..t.start].contains(&'#') {
+                    return true;
+                }
+                at = t.end;
+            }
+            false
         }
     }
 }
